@@ -45,14 +45,18 @@ def S():
 def ast_diff(a, b, path='', depth=0):
     """first structural difference between two qlast trees, or None"""
     cast = _S['cast']
+    if (a is None and b == []) or (b is None and a == []):
+        return None      # "no bases" / "no commands" written two ways
     if type(a) is not type(b):
         return f'{path}: {type(a).__name__} vs {type(b).__name__}'
     if isinstance(a, cast.AST):
         for name, _ in cast.iter_fields(a, include_meta=False, exclude_unset=False):
             if name in ('span', 'context', 'system_comment'):
                 continue
-            d = ast_diff(getattr(a, name, None), getattr(b, name, None),
-                         f'{path}.{name}', depth + 1)
+            x, y = getattr(a, name, None), getattr(b, name, None)
+            if name == 'commands':
+                x, y = _strip_using(a, x), _strip_using(b, y)
+            d = ast_diff(x, y, f'{path}.{name}', depth + 1)
             if d:
                 return d
         return None
@@ -80,6 +84,18 @@ def ast_diff(a, b, path='', depth=0):
             return None
         return f'{path}: {a!r} vs {b!r}'
     return None
+
+
+def _strip_using(node, commands):
+    """`p { using (E) }` and `p := (E)` are one clause: the long form keeps
+    E both as .target and as a SetField('expr') command (the same object)."""
+    tgt = getattr(node, 'target', None)
+    if tgt is None or not isinstance(commands, list):
+        return commands
+    qlast = _S['qlast']
+    return [c for c in commands
+            if not (isinstance(c, qlast.SetField) and c.name == 'expr'
+                    and c.special_syntax and c.value is tgt)]
 
 
 ENTRY = {}
@@ -113,6 +129,11 @@ def roundtrip(entry, text):
         t1 = parse(entry, text)
     except st['errors'].EdgeQLSyntaxError as e:
         return 'rejected', str(e)[:100]
+    return roundtrip_tree(entry, t1)
+
+
+def roundtrip_tree(entry, t1):
+    st = S()
     for mode in (dict(pretty=True), dict(pretty=False)):
         try:
             text2 = gen(t1, entry, **mode)
@@ -219,19 +240,37 @@ def corpus():
 
 
 def _corpus_job(items):
-    S()
+    st = S()
     out = []
     nrej = 0
+    n = 0
     for entry, text, origin in items:
         try:
-            v, d = roundtrip(entry, text)
+            t1 = parse(entry, text)
+        except st['errors'].EdgeQLSyntaxError:
+            nrej += 1
+            n += 1
+            continue
         except RecursionError:
             continue
-        if v == 'rejected':
-            nrej += 1
-        elif v == 'VIOLATION':
-            out.append(dict(kind='corpus', origin=origin, text=text[:300], what=d))
-    return len(items), nrej, out
+        # a statement block is checked statement by statement, so that one
+        # finding names one statement and not a whole file
+        parts = [[t] for t in t1] if isinstance(t1, list) else [t1]
+        for i, part in enumerate(parts):
+            n += 1
+            try:
+                v, d = roundtrip_tree(entry, part)
+            except RecursionError:
+                continue
+            if v == 'VIOLATION':
+                try:
+                    shown = gen(part, entry, pretty=False)
+                except Exception:
+                    shown = text
+                out.append(dict(kind='corpus', origin=f'{origin}#{i}',
+                                text=shown[:300] if len(parts) > 1 else text[:300],
+                                source=text[:2000], entry=entry, index=i, what=d))
+    return n, nrej, out
 
 
 # ------------------------------------------------------------------ universe 3
@@ -384,6 +423,12 @@ UNARY = {'NOT', 'NEG', 'POS', 'EXISTS', 'DISTINCT', 'DETACHED'}
 def key_of(v):
     """class of the failure (so that one printing defect is one finding)"""
     w = v['what']
+    if 'Shape vs TypeCast' in w:
+        return 'class:type-cast-not-parenthesised-as-shape-subject'
+    if v['kind'] == 'corpus' and re.search(
+            r'create extension package|create (applied )?migration', w, re.I) \
+            and re.search(r"\.(value|text): '", w):
+        return 'class:multi-line-string-inside-a-verbatim-block-is-reindented'
     if v['kind'] == 'tree':
         ops = v['ops']
         kids = set(ops[1:])
@@ -394,15 +439,23 @@ def key_of(v):
     t = v['text']
     if re.search(r'`(union|except|intersect)`', t, re.I):
         return 'class:partial-reserved-keyword-printed-bare'
-    if re.search(r'[@.<{ ]`\d+`|\b`\d+` *[:{]', t) or re.search(r'`9`|`01`|`00`', t):
+    digs = re.findall(r'`(\d+)`', t)
+    if digs and all(re.fullmatch(r'[1-9]\d*|0', d) for d in digs) \
+            and not re.search(r'x\.`\d+`', t):
+        # canonical integers only; names with leading zeros, and plain path
+        # steps, print correctly on the unchanged tree and are NOT this class
         return 'class:all-digit-name-printed-bare-where-a-number-is-not-allowed'
     if re.match(r'select [+-] ?[+-]', t) or '(-x) ^' in t or '(not x) =' in t:
         return ('class:prefix-operator-not-parenthesised-as-operand:'
                 + ('rejected' if 'rejected' in w else 'reparsed-differently'))
-    if 'cardinality_mod' in w:
-        return 'class:required-optional-modifier-of-a-parameter-cast-not-printed'
-    if '.optional: True vs False' in w:
-        return 'class:for-optional-not-printed'
+    if v['kind'] == 'corpus' and re.search(r'create extension package|create (applied )?migration', t, re.I) \
+            and 'Constant' not in w and re.search(r"\.value: '", w):
+        return 'class:multi-line-string-inside-a-verbatim-block-is-reindented'
+    if 'Shape vs TypeCast' in w:
+        return 'class:type-cast-not-parenthesised-as-shape-subject'
+    if re.search(r"for \w+ in [-+]", w, re.I) or re.search(r'\((NOT|-|\+|EXISTS|DISTINCT) ?\(?', w) and 'UnaryOp' in w:
+        return ('class:prefix-operator-not-parenthesised-as-operand:'
+                + ('rejected' if 'rejected' in w else 'reparsed-differently'))
     if '.parent: NoneType vs ObjectRef' in w:
         return 'class:create-migration-prints-explicit-onto-initial'
     if 'Shape vs Path' in w:
